@@ -19,9 +19,11 @@ Open Scope Q_scope.
 (* ---- values ------------------------------------------------------------------------------ *)
 (* Every result delivered by fetch_status_results is the i-th report of a job run of that trial,
    and that report carries exactly the table row of the run's configuration, the run's seed and
-   its level: level = resume point + i + 1 (resume point = the level the trial was paused at, with
-   checkpointing; 0 otherwise), metrics = the row's metrics, level <= max_resource.  The levels a
-   run reports are consecutive starting right after the resume point.  The seed of every run of a
+   its level: the level is the j-th fidelity value (any list of fidelity values: 1..n, 2,4,6,..),
+   metrics = the metrics of row j, level <= max_resource, level > resume level (= the level the
+   trial was paused at, with checkpointing; none otherwise).  The levels a run reports are exactly
+   the fidelity values within max_resource above the resume level, in table order, none skipped
+   (for 1..n: consecutive, starting at 1 or right after the paused level).  The seed of every run of a
    trial is the trial's single seed (the fixed one, or the one stored for the trial).
    That run is the trial's LATEST run ([latest]: no later entry of the run log belongs to the
    trial): a result of an earlier run of a resumed trial is never delivered (nudge = 1e-3 >= 0). *)
@@ -32,13 +34,15 @@ Theorem c10_values :
     exists run,
       nth_error (runs st') k = Some run /\ run_trial run = t /\ latest (runs st') t k /\
       nth_error (run_results run) i = Some r /\
-      (exists rw, nth_error (curve_of tbl (run_cfg run) (run_seed run))
-                            (resume_point S_ (run_rp run) + i) = Some rw /\
-                  res_level r = S (resume_point S_ (run_rp run) + i) /\
-                  res_metrics r = r_metrics rw /\
-                  match c_maxres (run_cfg run) with Some m => (res_level r <= m)%nat | None => True end) /\
+      (exists j rw, nth_error (fidelities S_) j = Some (res_level r) /\
+                    nth_error (curve_of tbl (run_cfg run) (run_seed run)) j = Some rw /\
+                    res_metrics r = r_metrics rw /\
+                    lvl_in_range (run_cfg run) (res_level r) = true /\
+                    lvl_above (resume_level S_ (run_rp run)) (res_level r) = true) /\
       map res_level (run_results run) =
-        seq (S (resume_point S_ (run_rp run))) (length (run_results run)) /\
+        filter (lvl_above (resume_level S_ (run_rp run)))
+               (filter (lvl_in_range (run_cfg run))
+                       (firstn (length (curve_of tbl (run_cfg run) (run_seed run))) (fidelities S_))) /\
       match fixed_seed S_ with
       | Some s0 => run_seed run = s0
       | None => lookup t (seeds st') = Some (run_seed run)
@@ -71,10 +75,10 @@ Theorem c10_timestamp :
       ts == run_te run + res_elapsed r + d_result S_ /\
       repaired S_ None (raw_job S_ tbl (run_cfg run) (run_seed run) (run_rp run)) (run_results run) /\
       (spaced S_ (eps S_) (raw_job S_ tbl (run_cfg run) (run_seed run) (run_rp run)) ->
-       exists rw, nth_error (curve_of tbl (run_cfg run) (run_seed run))
-                            (resume_point S_ (run_rp run) + i) = Some rw /\
-                  res_elapsed r == r_elapsed rw -
-                    offset tbl (run_cfg run) (run_seed run) (resume_point S_ (run_rp run))).
+       exists j rw, nth_error (fidelities S_) j = Some (res_level r) /\
+                    nth_error (curve_of tbl (run_cfg run) (run_seed run)) j = Some rw /\
+                    res_elapsed r == r_elapsed rw -
+                      offset S_ tbl (run_cfg run) (run_seed run) (resume_level S_ (run_rp run))).
 Proof.
   intros S_ tbl draw Hn ops pre st' rs sts post H t k i r ts Hin.
   destruct (fetch_delivered S_ tbl draw ops pre st' rs sts post H t k i r ts Hin)
@@ -102,12 +106,19 @@ Print Assumptions c10_repair_meaning.
 
 Theorem c10_raw_job_meaning :
   forall S_ tbl c seed rp i r, nth_error (raw_job S_ tbl c seed rp) i = Some r ->
-    exists rw, nth_error (curve_of tbl c seed) (resume_point S_ rp + i) = Some rw /\
-               res_level r = S (resume_point S_ rp + i) /\
-               (match c_maxres c with Some m => (res_level r <= m)%nat | None => True end) /\
-               res_metrics r = r_metrics rw /\
-               res_elapsed r = r_elapsed rw - offset tbl c seed (resume_point S_ rp).
+    exists j rw, nth_error (fidelities S_) j = Some (res_level r) /\
+                 nth_error (curve_of tbl c seed) j = Some rw /\
+                 res_metrics r = r_metrics rw /\
+                 res_elapsed r = r_elapsed rw - offset S_ tbl c seed (resume_level S_ rp) /\
+                 in_range c r = true /\ above (resume_level S_ rp) r = true.
 Proof. exact raw_job_nth. Qed.
+
+(* [offset] = elapsed time of the table row whose level is the paused level: with distinct fidelity
+   values, the elapsed time of THE result with that level *)
+Theorem c10_offset_meaning :
+  forall p l r, NoDup (map res_level l) -> In r l -> res_level r = p -> offset_of p l = res_elapsed r.
+Proof. intros p l r H1 H2 H3. exact (offset_of_unique p l r H1 H2 H3 0). Qed.
+Print Assumptions c10_offset_meaning.
 Print Assumptions c10_raw_job_meaning.
 
 (* the start time of a run: start_trial / resume_trial at simulated time c queue a start event at
@@ -200,7 +211,7 @@ Qed.
 Print Assumptions c10_repair_increasing.
 
 Definition ex_settings_r : settings :=
-  mkSet (1#20) (1#20) (1#20) (1#20) (1#20) (1#10) true None (1#100) (1#1000).
+  mkSet (1#20) (1#20) (1#20) (1#20) (1#20) (1#10) true None (1#100) (1#1000) [1; 2; 3]%nat.
 Example c10_repair_example :
   map (fun r => Qred (res_elapsed r))
       (match repair ex_settings_r [mkRes 1 3 []; mkRes 2 1 []; mkRes 3 (-5) []; mkRes 4 (7#2) []] with
@@ -353,7 +364,7 @@ Print Assumptions c10_event_loop_total.
    default delays: start, fetch (level 1), pause at level 1, resume, fetch (levels 2 and 3 of the
    second run, elapsed 1 and 1.01 since the resume point) *)
 Definition ex_settings : settings :=
-  mkSet (1#20) (1#20) (1#20) (1#20) (1#20) (1#10) true None (1#100) (1#1000).
+  mkSet (1#20) (1#20) (1#20) (1#20) (1#20) (1#10) true None (1#100) (1#1000) [1; 2; 3]%nat.
 Definition ex_table : table := [[[mkRow 1 [5]; mkRow 2 [6]; mkRow 2 [7]]]].
 Definition ex_ops : list op :=
   [OpStart (mkCfg 0 None) 0; OpFetch [0%nat] (3#2); OpPause 0 (Some 1%nat) 0;
@@ -388,3 +399,18 @@ Example c10_resume_level_example :
       (run_ops ex_settings ex_table (fun _ => 0%nat) init_state ex_ops2)
   = [[]; [1%nat]; []; []; [2%nat; 3%nat]; []; []; [3%nat]].
 Proof. vm_compute. repeat split. Qed.
+
+(* a non-standard fidelity grid 2, 4, 6: paused at level 2 the trial resumes at level 4 (the next
+   fidelity VALUE, not the position), elapsed time rebased against the row of level 2 *)
+Definition ex_settings_f : settings :=
+  mkSet (1#20) (1#20) (1#20) (1#20) (1#20) (1#10) true None (1#100) (1#1000) [2; 4; 6]%nat.
+Example c10_fidelity_grid_example :
+  map (fun x => match x with
+                | Ok (_, OutFetch rs _) =>
+                    map (fun d : delivered => let '(_, (_, _, r, _)) := d in (res_level r, Qred (res_elapsed r), res_metrics r)) rs
+                | _ => []
+                end)
+      (run_ops ex_settings_f [[[mkRow 1 [5]; mkRow 2 [6]; mkRow 4 [7]]]] (fun _ => 0%nat) init_state
+               [OpStart (mkCfg 0 None) 0; OpFetch [0%nat] (3#2); OpPause 0 (Some 2%nat) 0; OpResume 0 None 0; OpFetch [0%nat] 9])
+  = [[]; [(2%nat, 1, [5])]; []; []; [(4%nat, 1, [6]); (6%nat, 3, [7])]].
+Proof. vm_compute. reflexivity. Qed.
